@@ -9,29 +9,41 @@ pub static mut DATA: [[u8; 3]; 3] = [[0; 3]; 3];
 pub struct DirEntry;
 pub struct PathBuf;
 impl DirEntry { pub fn path(&self) -> PathBuf { PathBuf } }
-pub struct File { n: usize, lens: [usize; 3], data: [[u8; 3]; 3], fail_at: usize }
+pub mod io { #[derive(Clone, Copy, PartialEq, Eq, Debug)] pub enum ErrorKind { Other, Interrupted, UnexpectedEof }
+    #[derive(Clone, Copy, Debug)] pub struct Error(pub ErrorKind); impl Error { pub fn kind(&self) -> ErrorKind { self.0 } }
+    pub type Result<T> = core::result::Result<T, Error>; }
+pub struct File { n: usize, lens: [usize; 3], data: [[u8; 3]; 3], fail_at: usize, chunk: usize, pos: usize }
 impl File {
-    pub fn open<P>(_p: P) -> Result<File, ()> {
-        unsafe { if OPEN_FAILS { Err(()) } else { Ok(File { n: NCHUNKS, lens: LENS, data: DATA, fail_at: FAIL_AT }) } }
+    pub fn open<P>(_p: P) -> io::Result<File> {
+        unsafe { if OPEN_FAILS { Err(io::Error(io::ErrorKind::Other)) } else { Ok(File { n: NCHUNKS, lens: LENS, data: DATA, fail_at: FAIL_AT, chunk: 0, pos: 0 }) } }
+    }
+    fn rest(&mut self) -> io::Result<&[u8]> {
+        if self.chunk < self.n && self.pos >= self.lens[self.chunk] { self.chunk += 1; self.pos = 0; }
+        if self.chunk == self.fail_at { return Err(io::Error(io::ErrorKind::Other)); }
+        if self.chunk >= self.n { return Ok(&[]); }
+        Ok(&self.data[self.chunk][self.pos..self.lens[self.chunk]])
+    }
+    // like Read::read: copies at most out.len() bytes of the current chunk and says how many (0 only at the end of the file)
+    pub fn read(&mut self, out: &mut [u8]) -> io::Result<usize> {
+        let mut k = 0;
+        { let b = match self.rest() { Ok(b) => b, Err(e) => return Err(e) };
+          while k < b.len() && k < out.len() { out[k] = b[k]; k += 1; } }
+        self.pos += k;
+        Ok(k)
     }
 }
-pub struct BufReader { f: File, chunk: usize, pos: usize }
+pub struct BufReader { f: File }
 impl BufReader {
-    pub fn with_capacity(_c: usize, f: File) -> BufReader { BufReader { f, chunk: 0, pos: 0 } }
-    pub fn new(f: File) -> BufReader { BufReader { f, chunk: 0, pos: 0 } }
-    pub fn fill_buf(&mut self) -> Result<&[u8], ()> {
-        if self.chunk < self.f.n && self.pos >= self.f.lens[self.chunk] { self.chunk += 1; self.pos = 0; }
-        if self.chunk == self.f.fail_at { return Err(()); }
-        if self.chunk >= self.f.n { return Ok(&[]); }
-        Ok(&self.f.data[self.chunk][self.pos..self.f.lens[self.chunk]])
-    }
-    pub fn consume(&mut self, n: usize) { self.pos += n; }
+    pub fn with_capacity(_c: usize, f: File) -> BufReader { BufReader { f } }
+    pub fn new(f: File) -> BufReader { BufReader { f } }
+    pub fn fill_buf(&mut self) -> io::Result<&[u8]> { self.f.rest() }
+    pub fn consume(&mut self, n: usize) { self.f.pos += n; }
     // like std: fills the whole buffer or fails (a read error, or the end of the file before the buffer is full)
-    pub fn read_exact(&mut self, out: &mut [u8]) -> Result<(), ()> {
+    pub fn read_exact(&mut self, out: &mut [u8]) -> io::Result<()> {
         let mut k = 0;
         while k < out.len() {
             let b = match self.fill_buf() { Ok(b) => b, Err(e) => return Err(e) };
-            if b.is_empty() { return Err(()); }
+            if b.is_empty() { return Err(io::Error(io::ErrorKind::UnexpectedEof)); }
             out[k] = b[0];
             k += 1;
             self.consume(1);
